@@ -136,6 +136,8 @@ func encoderLayout(f *ssa.Function, header *ssa.Slice, frame ssa.Value) []layout
 				// for i := 0; i < n; i++ { header[K+i] = byte(src >> (8*(n-1-i))) }
 				if lo, n, src, okL := beLoopStore(x, ia); okL {
 					out = append(out, layoutEntry{lo, lo + n, fmt.Sprintf("BE%d", n*8), frameFieldName(src, frame), i})
+				} else if lo, n, src, okL := beDescLoopStore(x, ia); okL {
+					out = append(out, layoutEntry{lo, lo + n, fmt.Sprintf("BE%d", n*8), frameFieldName(src, frame), i})
 				}
 				return
 			}
